@@ -114,6 +114,7 @@ service Svc extends Base {
     D.append(doc("q_default_td_enum", "enum E { A = 1, B = 2 }\ntypedef E TE\nstruct Q { 1: TE e = E.B }\n", shape="default-enum-through-typedef", quarantine="C14-default-enum-through-typedef-panics"))
     D.append(doc("q_uuid_key", "struct Q { 1: set<uuid> s, 2: map<uuid, i32> m }\n", shape="uuid-as-set-element-or-key", quarantine="C14-uuid-key-by-reference"))
     D.append(doc("q_keep_struct_literal", "struct In { 1: i32 a = 1 }\nconst In CI = {\"a\": 2}\nstruct Q { 1: In i = {\"a\": 3} }\n", shape="struct-literal", quarantine="C14-struct-literal-misses-unknown-fields"))
+    D.append(doc("q_type_named_t", "struct T { 1: i32 a }\nstruct H { 1: T t, 2: list<T> ts }\n", shape="type-named-T", quarantine="C14-type-named-like-generic-parameter"))
     D.append(doc("q_empty_enum", "enum Err {\n}\nstruct Q { 1: Err e }\n", shape="empty-enum", quarantine=None))
     D[-1]["outside_grammar"] = True   # G_thrift requires at least one enum value
     return D
@@ -129,6 +130,7 @@ def proto_docs():
                  ' optional bool e = 5 [default = true]; enum En { X = 1; Y = 2; } optional En f = 6 [default = Y]; repeated En g = 7; map<string, P2> h = 8; }\n', kind="proto", shape="pb-proto2"))
     D.append(doc("pb_service", 'syntax = "proto3";\nmessage Rq { int32 a = 1; }\nmessage Rs { string b = 1; }\n'
                  'service Svc { rpc Unary(Rq) returns (Rs); rpc ClientS(stream Rq) returns (Rs); rpc ServerS(Rq) returns (stream Rs); rpc Bidi(stream Rq) returns (stream Rs); }\n', kind="proto", shape="pb-service"))
+    D.append(doc("pb_msg_named_b", 'syntax = "proto3";\nmessage B { int32 a = 1; }\nmessage T { B b = 1; }\nmessage H { B b = 1; T t = 2; repeated B bs = 3; map<string, T> m = 4; }\n', kind="proto", shape="pb-message-named-B-T"))
     D.append(doc("q_pb_oneof_rec", 'syntax = "proto3";\nmessage R { int32 a = 1; oneof pick { R me = 2; string s = 3; } }\n', kind="proto", shape="pb-recursive-oneof-member", quarantine="C14-oneof-recursive-member"))
     D.append(doc("pb_scalars", 'syntax = "proto3";\npackage a.b.c;\nmessage All { double f1 = 1; float f2 = 2; int32 f3 = 3; int64 f4 = 4; uint32 f5 = 5; uint64 f6 = 6; sint32 f7 = 7; sint64 f8 = 8;\n'
                  ' fixed32 f9 = 9; fixed64 f10 = 10; sfixed32 f11 = 11; sfixed64 f12 = 12; bool f13 = 13; string f14 = 14; bytes f15 = 15;\n'
